@@ -144,7 +144,7 @@ PROPS = {
                                'adapter.py:BaseAdapterRegistry._find_leaf', 'adapter.py:BaseAdapterRegistry.registered',
                                'adapter.py:BaseAdapterRegistry.subscribed', 'adapter.py:BaseAdapterRegistry._allKeys',
                                'adapter.py:BaseAdapterRegistry._all_entries', 'adapter.py:BaseAdapterRegistry.allRegistrations',
-                               'adapter.py:BaseAdapterRegistry.allSubscriptions']},
+                               'adapter.py:BaseAdapterRegistry.allSubscriptions', 'adapter.py:BaseAdapterRegistry._createLookup']},
         level_text="Verified from the real bodies for all registry contents: (re-)initialisation installs fresh empty containers and "
                    "continues the generation counter (rebuild() runs it on a live registry); _find_leaf / registered / subscribed answer the entry at "
                    "the end of the path of exactly that key (required specifications with None standing for Interface, then provided, then the name) "
@@ -157,7 +157,9 @@ PROPS = {
                    "position by position along the path, only the leaf entry disappears and only mappings that are empty now are pruned, the by-order "
                    "list only loses trailing empty mappings, the reference counts follow, everything else is untouched -- otherwise nothing at all changes; "
                    "_allKeys / _all_entries / allRegistrations / allSubscriptions yield exactly the entries of the per-order trees (every key of every dict, "
-                   "in dict order, reshaped to (required, provided, name, value); every subscriber of every leaf in leaf order). That the effect on the "
+                   "in dict order, reshaped to (required, provided, name, value); every subscriber of every leaf in leaf order); _createLookup (run by "
+                   "__init__, hence by rebuild()) installs a NEW lookup object and binds every delegated method name in the instance dictionary to that "
+                   "object. That the effect on the "
                    "dict OBJECTS is the effect on the VIEW of other keys needs the tree shape of the containers (no dict reachable by two paths): that "
                    "step, the link between the enumeration and the path specification, and rebuild() are checked bounded against a dictionary replay of "
                    "random histories (<= 7 calls).",
